@@ -13,6 +13,7 @@ from vlib import cz, czl, clist, copt, cnat
 
 SIMKINDS = ["SimEq", "SimHead", "SimNever", "SimAlways", "SimLe"]
 EQUIV = ("SimEq", "SimHead", "SimAlways")        # reflexive + symmetric + transitive operators
+SYMMETRIC = EQUIV + ("SimNever",)
 
 
 def sim_spec(kind):
@@ -50,6 +51,8 @@ class Driver:
         self.base, self.tools = base, tools
         self.fitclasses = {}
         self.indclasses = {}
+        self.stats = {"hof_evictions": 0, "pf_removed_2_or_more": 0, "pf_removed_noncontiguous": 0,
+                      "similar_resubmitted_with_other_fitness": 0, "calls_that_raised": 0}
 
     def fitcls(self, w):
         w = tuple(w)
@@ -154,6 +157,7 @@ class Driver:
                 note_hset(k)
 
         raised = False
+        prev_ids = []
         for o in script:
             if o[0] == "update":
                 for (slot, ci) in o[1]:
@@ -173,7 +177,10 @@ class Driver:
                     cur[slot] = ci
                 for (slot, _) in o[1]:              # what was shown, from the script alone
                     g, v = universe[cur[slot]]
-                    seen.append((tuple(g), wfit(v)))
+                    snap = (tuple(g), wfit(v))
+                    if any(spec(snap[0], t[0]) and t[1] != snap[1] for t in seen):
+                        self.stats["similar_resubmitted_with_other_fitness"] += 1
+                    seen.append(snap)
                 try:
                     arch.update(batch)
                 except Exception as e:      # noqa
@@ -207,6 +214,7 @@ class Driver:
                 except Exception as e:      # noqa
                     raised = type(e).__name__
             if raised:
+                self.stats["calls_that_raised"] += 1
                 obs_terms.append("None")
                 hobs.append("(Some None)")
                 obs_log.append("raise " + raised)
@@ -238,6 +246,16 @@ class Driver:
                 break
             obs_terms.append("(Some (%s, %s))" % (clist([czl(k) for k in ks]), clist([cind(*t) for t in its])))
             obs_log.append([ks, its])
+            ids_now = [c for (c, _, _) in its]
+            lost_pos = [k for k, c in enumerate(prev_ids) if c not in ids_now]
+            if o[0] == "update" and lost_pos:
+                if kind == "hof":
+                    self.stats["hof_evictions"] += 1
+                elif len(lost_pos) >= 2:
+                    self.stats["pf_removed_2_or_more"] += 1
+                    if lost_pos[-1] - lost_pos[0] + 1 != len(lost_pos):      # positions in the archive before the call
+                        self.stats["pf_removed_noncontiguous"] += 1
+            prev_ids = ids_now
             # ---------------- oracle: the property statement on the implementation ----------------
             if not iface_ok:
                 viol.append(("len / iteration / indexing / reversed disagree with the item list", its))
@@ -274,19 +292,22 @@ class Driver:
         if any(a not in seen_set for a in A):
             out.append(("a member is not a copy of any individual shown", A))
         if kind == "hof":
-            if m < 1 or simk not in EQUIV:
+            if m < 1:
                 return out
-            # Appendix B item 5: similar individuals have equal fitness (else "distinct" is ill-defined)
+            # size and pairwise distinctness do not depend on any hypothesis about fitnesses
+            # (C08_hof_shape: any operator; C08_hof_distinct: any symmetric operator)
+            if len(A) > m:
+                out.append(("more than maxsize members", A))
+            if simk in SYMMETRIC:
+                if any(i != j and spec(A[i][0], A[j][0]) for i in range(len(A)) for j in range(len(A))):
+                    out.append(("two members are similar", A))
+            if simk not in EQUIV:
+                return out
+            # Appendix B item 5: similar individuals have equal fitness (else "distinct ... strictly better" is ill-defined)
             for s in seen_set:
                 for t in seen_set:
                     if spec(s[0], t[0]) and s[1] != t[1]:
                         return out
-            if len(A) > m:
-                out.append(("more than maxsize members", A))
-            for i in range(len(A)):
-                for j in range(len(A)):
-                    if i != j and spec(A[i][0], A[j][0]):
-                        out.append(("two members are similar", A))
             classes = []
             for s in seen:
                 if not any(spec(s[0], c[0]) for c in classes):
@@ -306,6 +327,9 @@ class Driver:
             if [a[1] for a in A] != best:
                 out.append(("member fitnesses are not the best maxsize distinct fitnesses shown", [A, best]))
         else:
+            # mutual non-domination holds for any operator (C08_pf_inv)
+            if any(i != j and dom_spec(A[i][1], A[j][1]) for i in range(len(A)) for j in range(len(A))):
+                out.append(("a member dominates another member", A))
             if simk not in EQUIV:
                 return out
             nd = [s for s in seen_set if not any(dom_spec(t[1], s[1]) for t in seen_set)]
@@ -317,12 +341,8 @@ class Driver:
                 if not any(a[1] == s[1] and spec(s[0], a[0]) for a in A):
                     out.append(("a non-dominated individual that was shown has no copy in the archive", [s, A]))
                     break
-            for i in range(len(A)):
-                for j in range(len(A)):
-                    if i != j and A[i][1] == A[j][1] and spec(A[i][0], A[j][0]):
-                        out.append(("two copies of the same individual", A))
-                    if i != j and dom_spec(A[i][1], A[j][1]):
-                        out.append(("a member dominates another member", A))
+            if any(i != j and A[i][1] == A[j][1] and spec(A[i][0], A[j][0]) for i in range(len(A)) for j in range(len(A))):
+                out.append(("two copies of the same individual", A))
             if simk == "SimEq" and (set(A) != set(nd) or len(set(A)) != len(A)):
                 out.append(("archive is not exactly the set of distinct non-dominated individuals shown", [A, sorted(nd)]))
         return out
@@ -353,11 +373,13 @@ def main(run):
                 "all submitted objects are overwritten in place and the archive is read again. "
                 "exhaustive: every history of 3 update batches (each 0..2 individuals, with repetition) over a universe of 4 "
                 "individuals (slots = objects, so re-submission is by identity), m in 1..3, 1 and 2 objectives, all weight signs "
-                "(quick: all histories of <=2 batches for every configuration plus a seed-chosen sample of 150 of the 3-batch ones; "
+                "(quick: all histories of <=2 batches for every configuration plus a seed-chosen sample of 100 of the 3-batch ones; "
                 "thorough: all 9261 3-batch histories for the first universe of each arity, <=2 batches + 1500 sampled for 2-3 further universes); "
-                "every 8th exhaustive history and every random one is also replayed on the heap-level model; random: 1..4 objectives, mixed weights, m 1..6, up to 14 batches of up "
+                "every 16th exhaustive history and every random one is also replayed on the heap-level model; random: 1..4 objectives, mixed weights, m 1..6, up to 14 batches of up "
                 "to 7 individuals, tie-heavy grids, planted antichain-then-dominator patterns, similarity operators eq / first-gene / "
-                "always / never / non-symmetric; api: update mixed with direct insert / remove(any index) / clear. "
+                "always / never / non-symmetric, universes where similar individuals carry different fitnesses (in-place re-evaluation); "
+                "noncontig: 3-4 objectives, every sign mix, a newcomer dominating a non-contiguous set of positions of the sorted archive; "
+                "corpus/C08_*.json first; api: update mixed with direct insert / remove(any index) / clear. "
                 "distinct = full script + configuration; non-trivial = at least one non-empty update.")
     run.trusted += ["Coq 8.16.1 kernel and vm_compute",
                     "hand-written models coq/Model/C08_Archive.v (value level) and coq/Model/C08_Heap.v (objects/references/in-place writes) tied by correspondence (harness/c08.py, coq/Corr/C08.v)",
@@ -370,11 +392,53 @@ def main(run):
     rng = run.rng
     D = Driver(run)
     groups = {}
+    parts = {}
+
+    def flush(group):
+        """Evaluate the accumulated cases of one group in Coq and drop them (keeps memory flat)."""
+        terms, cases = groups.pop(group, ([], []))
+        if not terms:
+            return
+        k = parts.get(group, 0)
+        parts[group] = k + 1
+        name = group if k == 0 else "%s_p%d" % (group, k)
+        run.correspond(name, "C08", terms, cases)
+        if name != group:                      # merge the statistics under the group's name
+            st = run.corr_groups.pop(name)
+            tot = run.corr_groups.setdefault(group, {"cases": 0, "disagree": 0, "errors": 0})
+            for key in st:
+                tot[key] += st[key]
 
     def add(group, term, case):
         groups.setdefault(group, ([], []))
         groups[group][0].append(term)
-        groups[group][1].append(case)
+        # keep the diagnostics small: the observation log is only needed in replays of oracle violations
+        groups[group][1].append({k: v for k, v in case.items() if k != "observed"})
+        if len(groups[group][0]) >= 8000:
+            flush(group)
+
+    # ---------------- corpus: past misses, run first ----------------
+    import glob
+    import json
+    import os
+    import vlib
+    corpus_files = [] if os.environ.get("C08_NO_CORPUS") else sorted(glob.glob(os.path.join(vlib.VERIF, "corpus", "C08*.json")))
+    for path in corpus_files:          # (C08_NO_CORPUS=1 is only used by the self-test to judge the generators alone)
+        for c in json.load(open(path)):
+            script = []
+            for o in c["script"]:
+                if o[0] == "update":
+                    script.append(("update", [tuple(e) for e in o[1]]))
+                elif o[0] == "insert":
+                    script.append(("insert", tuple(o[1])))
+                elif o[0] == "remove":
+                    script.append(("remove", o[1]))
+                else:
+                    script.append(("clear",))
+            uni = [(list(g), tuple(v)) for g, v in c["universe"]]
+            term, hterm, case = D.drive(c["kind"], c.get("maxsize"), c["similar"], tuple(c["weights"]), uni, script, "corpus")
+            add("corpus", term, case)
+            add("corpus_heap", hterm, case)
 
     # ---------------- exhaustive small scope ----------------
     single = batches_upto(4, 2)          # 21 batches
@@ -400,12 +464,12 @@ def main(run):
         elif run.thorough:
             hs = hist2 + rng.sample(hist3, 1500)
         else:
-            hs = hist2 + rng.sample(hist3, 150)
+            hs = hist2 + rng.sample(hist3, 100)
         for h in hs:
             term, hterm, case = D.drive(kind, m, "SimEq", w, uni, script_of(h), "exh")
             add("exh", term, case)
             nexh += 1
-            if nexh % 8 == 0:                    # heap-level replay of every 8th exhaustive history
+            if nexh % 16 == 0:                   # heap-level replay of every 16th exhaustive history
                 add("exh_heap", hterm, case)
 
     # ---------------- random histories ----------------
@@ -449,7 +513,7 @@ def main(run):
 
     def rand_case():
         kind = "hof" if rng.random() < 0.5 else "pf"
-        nobj = rng.choice([1, 2, 2, 3, 4])
+        nobj = rng.choice([1, 2, 2, 3, 3, 4, 4])
         weights = tuple(rng.choice([1, -1]) * rng.choice([1, 1, 2]) for _ in range(nobj))
         simk = rng.choice(["SimEq"] * 5 + ["SimHead"] * 3 + ["SimAlways", "SimNever", "SimLe"])
         honest = rng.random() < 0.8
@@ -459,7 +523,7 @@ def main(run):
         script = rand_script(len(uni), nslots, rng.randint(1, 14), 7, api=False)
         return kind, m, simk, weights, uni, script
 
-    nrand = run.scale(1200, 15000)
+    nrand = run.scale(1000, 15000)
     for it in range(nrand):
         kind, m, simk, weights, uni, script = rand_case()
         term, hterm, case = D.drive(kind, m, simk, weights, uni, script, "rand", use_creator=rng.random() < 0.3)
@@ -478,7 +542,7 @@ def main(run):
     run.search_fn = search
 
     # planted: an antichain is shown first, then individuals dominating several members at once
-    for it in range(run.scale(200, 4000)):
+    for it in range(run.scale(150, 3000)):
         nobj = rng.choice([2, 2, 3, 4])
         weights = tuple(rng.choice([1, -1]) for _ in range(nobj))
         k = rng.randint(2, 5)
@@ -509,8 +573,65 @@ def main(run):
         add("plant", term, case)
         add("plant_heap", hterm, case)
 
+    # noncontig: 3-4 objectives, every weight-sign mix in turn; an archive of 3..6 mutually non-dominated
+    # members, then a newcomer built to dominate a NON-CONTIGUOUS set of positions of the sorted archive
+    # (componentwise maximum of the chosen members plus a bump, checked not to dominate the others)
+    sign_cycle = itertools.cycle([w for n in (3, 4) for w in itertools.product([1, -1], repeat=n)])
+    for it in range(run.scale(250, 4000)):
+        weights = next(sign_cycle)
+        nobj = len(weights)
+        built = None
+        for attempt in range(60):
+            pts = []
+            for _ in range(300):
+                if len(pts) >= rng.randint(3, 6):
+                    break
+                c = tuple(rng.randint(0, rng.choice([3, 5, 9])) for _ in range(nobj))
+                if c in pts or any(dom_spec(c, q) or dom_spec(q, c) for q in pts):
+                    continue
+                pts.append(c)
+            if len(pts) < 3:
+                continue
+            order = sorted(pts, reverse=True)              # positions in the archive (weighted, best first)
+            n = len(order)
+            idx = sorted(rng.sample(range(n), rng.randint(2, n - 1)))
+            if idx[-1] - idx[0] + 1 == len(idx):
+                continue                                   # contiguous
+            newc = [max(order[i][k] for i in idx) for k in range(nobj)]
+            newc[rng.randrange(nobj)] += 1
+            newc = tuple(newc)
+            if any(dom_spec(newc, order[i]) for i in range(n) if i not in idx):
+                continue
+            built = (pts, newc)
+            break
+        if built is None:                                  # fall back to the known witness shape
+            weights = (1, 1, 1)
+            built = ([(3, 2, 0), (2, 9, 0), (1, 1, 1)], (4, 3, 1))
+        pts, newc = built
+        to_vals = lambda c: tuple(x * w for x, w in zip(c, weights))     # weights are +-1
+        uni = [([j], to_vals(c)) for j, c in enumerate(pts)] + [([50], to_vals(newc))]
+        for j in range(rng.randint(0, 2)):
+            uni.append(([60 + j], to_vals(tuple(rng.randint(0, 5) for _ in range(len(weights))))))
+        members = list(range(len(pts)))
+        rng.shuffle(members)
+        cut = rng.randint(1, len(members))
+        script = [("update", [(j, u) for j, u in enumerate(members[:cut])])]
+        if members[cut:]:
+            script.append(("update", [(j, u) for j, u in enumerate(members[cut:])]))
+        extra = [(rng.randrange(5), rng.randrange(len(uni))) for _ in range(rng.randint(0, 2))]
+        batch = [(0, len(pts))] + [(1 + e[0] % 4, e[1]) for e in extra]
+        if rng.random() < 0.5:
+            rng.shuffle(batch)
+        script.append(("update", batch))
+        if rng.random() < 0.4:
+            script.append(("update", [(rng.randrange(5), rng.randrange(len(uni))) for _ in range(rng.randint(1, 3))]))
+        kind = "pf" if rng.random() < 0.85 else "hof"
+        term, hterm, case = D.drive(kind, rng.randint(2, 6), "SimEq", weights, uni, script, "noncontig")
+        add("noncontig", term, case)
+        add("noncontig_heap", hterm, case)
+
     # api: direct insert / remove / clear mixed with updates, and maxsize 0
-    for it in range(run.scale(400, 6000)):
+    for it in range(run.scale(300, 5000)):
         kind = "hof" if rng.random() < 0.5 else "pf"
         nobj = rng.choice([1, 2, 3])
         weights = tuple(rng.choice([1, -1]) for _ in range(nobj))
@@ -522,5 +643,6 @@ def main(run):
         add("api", term, case)
         add("api_heap", hterm, case)
 
-    for g, (terms, cases) in groups.items():
-        run.correspond(g, "C08", terms, cases)
+    for g in list(groups):
+        flush(g)
+    run.extra_cov["events_observed"] = dict(D.stats)
